@@ -1,0 +1,255 @@
+//go:build verif
+
+// Export shim over the unexported in-flight request handler, compiled only with the build tag
+// `verif`. It adds no behaviour: every function below forwards to the code in inflight.go /
+// client.go or reads state. Without the tag the package is unchanged.
+
+package client
+
+import (
+	"context"
+	"net"
+	"sort"
+	"strings"
+	"sync"
+	"time"
+
+	"github.com/datastax/go-cassandra-native-protocol/frame"
+)
+
+// VerifHandler wraps an inFlightRequestsHandler built by newInFlightRequestsHandler.
+type VerifHandler struct {
+	h      *inFlightRequestsHandler
+	ids    chan int16 // the stream id channel (the handler sets its own field to nil on close)
+	cancel context.CancelFunc
+	after  []int16 // pool contents captured after close (a closed channel can be drained only once)
+	closed bool
+}
+
+// VerifNewHandler builds a handler exactly as newCqlClientConnection does.
+func VerifNewHandler(maxInFlight int, maxPending int, timeout time.Duration) *VerifHandler {
+	ctx, cancel := context.WithCancel(context.Background())
+	h := newInFlightRequestsHandler("verif", ctx, maxInFlight, maxPending, timeout)
+	return &VerifHandler{h: h, ids: h.streamIds, cancel: cancel}
+}
+
+// Enqueue forwards to onOutgoingFrameEnqueued. The frame's header is updated by the handler.
+func (v *VerifHandler) Enqueue(f *frame.Frame) (InFlightRequest, error) {
+	r, err := v.h.onOutgoingFrameEnqueued(f)
+	if err != nil {
+		return nil, err
+	}
+	return r, nil
+}
+
+// Deliver forwards to onIncomingFrameReceived.
+func (v *VerifHandler) Deliver(f *frame.Frame) error {
+	return v.h.onIncomingFrameReceived(f)
+}
+
+// Close forwards to close().
+func (v *VerifHandler) Close() {
+	v.h.close()
+}
+
+// CancelContext cancels the context the handler was created with (what CqlClientConnection.Close does first).
+func (v *VerifHandler) CancelContext() {
+	v.cancel()
+}
+
+func (v *VerifHandler) IsClosed() bool {
+	return v.h.isClosed()
+}
+
+// PoolLen is the number of free stream ids.
+func (v *VerifHandler) PoolLen() int {
+	return len(v.ids)
+}
+
+// Pool returns the free stream ids in FIFO order. Not safe for use concurrently with the handler:
+// it drains the channel and refills it in the same order (after close: drains once and remembers).
+func (v *VerifHandler) Pool() []int16 {
+	if v.closed {
+		return append([]int16(nil), v.after...)
+	}
+	isClosed := v.h.isClosed()
+	n := len(v.ids)
+	res := make([]int16, 0, n)
+	for i := 0; i < n; i++ {
+		id, ok := <-v.ids
+		if !ok {
+			break
+		}
+		res = append(res, id)
+	}
+	if isClosed {
+		v.closed = true
+		v.after = append([]int16(nil), res...)
+		return res
+	}
+	for _, id := range res {
+		v.ids <- id
+	}
+	return res
+}
+
+// InFlightKeys returns the sorted keys of the in-flight map.
+func (v *VerifHandler) InFlightKeys() []int16 {
+	v.h.inFlightLock.RLock()
+	defer v.h.inFlightLock.RUnlock()
+	keys := make([]int16, 0, len(v.h.inFlight))
+	for k := range v.h.inFlight {
+		keys = append(keys, k)
+	}
+	sort.Slice(keys, func(i, j int) bool { return keys[i] < keys[j] })
+	return keys
+}
+
+// InFlightLen is len(inFlight).
+func (v *VerifHandler) InFlightLen() int {
+	v.h.inFlightLock.RLock()
+	defer v.h.inFlightLock.RUnlock()
+	return len(v.h.inFlight)
+}
+
+// InFlightRequestAt returns the request registered under the given stream id, if any.
+func (v *VerifHandler) InFlightRequestAt(id int16) (InFlightRequest, bool) {
+	v.h.inFlightLock.RLock()
+	defer v.h.inFlightLock.RUnlock()
+	r, found := v.h.inFlight[id]
+	if !found {
+		return nil, false
+	}
+	return r, true
+}
+
+// VerifRequestState is what can be read off a request without consuming its channel.
+type VerifRequestState struct {
+	StreamId int16
+	Managed  bool
+	Done     bool
+	ErrClass string // "" when Err() == nil
+	Queued   int    // frames waiting in Incoming()
+	Capacity int
+}
+
+func VerifStateOf(r InFlightRequest) VerifRequestState {
+	st := VerifRequestState{StreamId: r.StreamId(), Done: r.IsDone(), ErrClass: VerifErrClass(r.Err())}
+	ch := r.Incoming()
+	st.Queued = len(ch)
+	st.Capacity = cap(ch)
+	if ir, ok := r.(*inFlightRequest); ok {
+		st.Managed = ir.managedStreamId
+	}
+	return st
+}
+
+// VerifIsLastFrame forwards to isLastFrame.
+func VerifIsLastFrame(f *frame.Frame) bool {
+	return isLastFrame(f)
+}
+
+// VerifErrClass maps the handler's errors (built with fmt.Errorf, no sentinel values) to a small enum.
+func VerifErrClass(err error) string {
+	if err == nil {
+		return ""
+	}
+	s := err.Error()
+	switch {
+	case strings.Contains(s, "timed out waiting for incoming frames"):
+		return "timeout"
+	case strings.Contains(s, "too many pending incoming frames"):
+		return "too-many-pending"
+	case strings.Contains(s, "request closed"):
+		return "request-closed"
+	case strings.Contains(s, "too many in-flight requests"):
+		return "too-many-in-flight"
+	case strings.Contains(s, "stream id already in use"):
+		return "in-use"
+	case strings.Contains(s, "no stream id available"):
+		return "no-id"
+	case strings.Contains(s, "unknown stream id"):
+		return "unknown-id"
+	case strings.Contains(s, "release failed"):
+		return "release-failed"
+	case strings.Contains(s, "failed to enqueue outgoing frame"):
+		return "outgoing-full"
+	case strings.Contains(s, "handler closed"):
+		return "closed"
+	case strings.Contains(s, "connection closed"):
+		return "closed"
+	}
+	return "other"
+}
+
+// VerifConn is a CqlClientConnection without its goroutines: no socket loop reads or writes, so that
+// Send and processIncomingFrame can be driven step by step. The outgoing queue is never drained unless
+// TakeOutgoing is called (a writer blocked on the socket).
+type VerifConn struct {
+	C        *CqlClientConnection
+	H        *VerifHandler
+	peer     net.Conn
+	events   chan *frame.Frame // the connection sets its own fields to nil on Close
+	outgoing chan *frame.Frame
+}
+
+// VerifNewConn assembles the fields exactly as newCqlClientConnection does, minus the three goroutines.
+func VerifNewConn(maxInFlight int, maxPending int, timeout time.Duration, handlers []EventHandler) *VerifConn {
+	a, b := net.Pipe()
+	c := &CqlClientConnection{
+		conn:        a,
+		readTimeout: timeout,
+		handlers:    handlers,
+		outgoing:    make(chan *frame.Frame, maxInFlight),
+		events:      make(chan *frame.Frame, maxInFlight),
+		waitGroup:   &sync.WaitGroup{},
+	}
+	c.ctx, c.cancel = context.WithCancel(context.Background())
+	c.inFlightHandler = newInFlightRequestsHandler(c.String(), c.ctx, maxInFlight, maxPending, timeout)
+	return &VerifConn{C: c, H: &VerifHandler{h: c.inFlightHandler, ids: c.inFlightHandler.streamIds, cancel: c.cancel}, peer: b, events: c.events, outgoing: c.outgoing}
+}
+
+// Route forwards to processIncomingFrame (EVENT frames to handlers and the event queue, the rest to the handler).
+func (v *VerifConn) Route(f *frame.Frame) (abort bool) {
+	return v.C.processIncomingFrame(f)
+}
+
+// EventsQueued is the number of frames waiting in the event channel.
+func (v *VerifConn) EventsQueued() int {
+	return len(v.events)
+}
+
+// TakeEvent removes one frame from the event channel, if any.
+func (v *VerifConn) TakeEvent() *frame.Frame {
+	select {
+	case f, ok := <-v.events:
+		if ok {
+			return f
+		}
+	default:
+	}
+	return nil
+}
+
+// OutgoingQueued is the number of frames waiting in the outgoing channel.
+func (v *VerifConn) OutgoingQueued() int {
+	return len(v.outgoing)
+}
+
+// TakeOutgoing removes one frame from the outgoing queue, as the writer loop would.
+func (v *VerifConn) TakeOutgoing() *frame.Frame {
+	select {
+	case f, ok := <-v.outgoing:
+		if ok {
+			return f
+		}
+	default:
+	}
+	return nil
+}
+
+// Close forwards to CqlClientConnection.Close.
+func (v *VerifConn) Close() error {
+	_ = v.peer.Close()
+	return v.C.Close()
+}
